@@ -1,11 +1,1113 @@
-//! C18 — (not built yet)
-#![allow(unused_imports, unused_variables, dead_code)]
+//! C18 — JominiDeserialize field semantics hold for every field order and multiplicity.
+//!
+//! op: `derive <schema-id> <pairs>`
+//!   <schema-id> ∈ basic | aliased | tok | nested | with   (the derived structs below; the Lean
+//!                 driver carries the same structs as `FieldSpec` lists)
+//!   <pairs>     = `-` | item (`,` item)*           the ordered (key, value) pairs of the document
+//!   item        = [`#`|`%`] key `=` val            `#` = in the BINARY rendering the key is written
+//!                                                  as a token id (otherwise as a string);
+//!                                                  `%` (numeric keys only) = written as an I32 token
+//!   key         = [a-z0-9_]+
+//!   val         = int | `i64:`n | `u32:`n | `u64:`n | `f32:`<8 hex> | `f64:`<16 hex> | `b:`<byte>
+//!               | `q:`<hex> | `uq:`<hex> | `rgb:`r`/`g`/`b[`/`a]
+//!               | `[` val (`.` val)* `]` | `[]` | `{` inner (`;` inner)* `}` | `{}`     (nest freely)
+//!   inner       = key `=` val
+//!   (int = I32 token; i64/u32/u64/f32/f64/b/q/uq/rgb = the binary token kind with that raw payload;
+//!   in text: decimal numbers, a fixed decimal for floats, yes/no, a quoted string with control
+//!   bytes replaced, `x<hex>` for an unquoted string, `rgb { r g b }`)
+//! The harness renders the pairs as TEXT (`k=v k={ 1 2 } k={ a=1 b=2 }`) and as BINARY
+//! (keys as ids from `NAMES` or Quoted strings, ints as I32) and runs every deserializer path:
+//!   text:   from_windows1252_slice, from_utf8_slice, TextDeserializer::from_windows1252_tape,
+//!           from_windows1252_reader, from_utf8_reader
+//!   binary: deserialize_slice (on-demand), deserialize_tape, deserialize_reader (streaming)
+//!   the reader paths also with small buffers (text 32/48/64 bytes, binary 16/24/64 bytes)
+//! Result line: `T:<res> B:<res>` where <res> = canonical struct value `a=1;b=none;e=[1.2]` or
+//! `err:duplicate:<field>` / `err:missing:<field>` / `err:invalidtype` / `err:other`.
+//!
+//! Known findings (recorded in known_findings.txt, exact oracle kinds): `unknown-int-key-binary`
+//! (an unknown key written as an I32 token in binary is an invalid-type error, not ignored) and
+//! `unknown-digit-key-token-struct` (a token-attribute struct read from text rejects an unknown
+//! all-digit key); every other divergence of the unknown-ignored oracle is `unknown-not-ignored`.
+//!
+//! L3 oracles (implementation only): all text paths agree; all binary paths agree; without `#`
+//! and numeric keys text == binary; an independent reference reading of the property
+//! (duplicated = occurrences in document order, take_last = last, plain twice = duplicate error,
+//! defaults / missing, unknown ignored); permutation independence (a shuffle preserving the
+//! relative order of each duplicated field's occurrences and the last occurrence of take_last
+//! fields gives the same value / still an error).
 use crate::common::*;
+use jomini::binary::BinaryFlavor;
+use jomini::{BinaryDeserializer, BinaryTape, Encoding, JominiDeserialize, TextDeserializer, TextTape, Windows1252Encoding};
+use serde::Deserialize;
+use std::borrow::Cow;
+use std::collections::HashMap;
 
-pub fn gen(g: &mut Gen) {}
+#[derive(Debug, Default, Clone, Copy)]
+pub struct Flavor;
+impl BinaryFlavor for Flavor {
+    fn visit_f32(&self, data: [u8; 4]) -> f32 {
+        f32::from_le_bytes(data)
+    }
+    fn visit_f64(&self, data: [u8; 8]) -> f64 {
+        f64::from_le_bytes(data)
+    }
+}
+impl Encoding for Flavor {
+    fn decode<'a>(&self, data: &'a [u8]) -> Cow<'a, str> {
+        Windows1252Encoding::decode(data)
+    }
+}
+
+/// binary token id of a name = 0x2d00 + index; names starting with 'u' are NOT in the resolver
+pub const NAMES: &[&str] = &[
+    "a", "b", "c", "d", "e", "f", "x", "core", "l", "dd", "both", "g", "bee", "u1", "u2", "inner", "inners", "last", "u", "v", "w",
+    "cores", "zz", "yy", "k1", "k2",
+];
+fn name_id(k: &str) -> Option<u16> {
+    NAMES.iter().position(|n| *n == k).map(|i| 0x2d00 + i as u16)
+}
+fn resolver() -> HashMap<u16, &'static str> {
+    NAMES.iter().enumerate().filter(|(_, n)| !n.starts_with('u') || **n == "u").map(|(i, n)| (0x2d00 + i as u16, *n)).collect()
+}
+
+fn d777() -> i32 {
+    777
+}
+fn plus1000<'de, D: serde::Deserializer<'de>>(d: D) -> Result<i32, D::Error> {
+    i32::deserialize(d).map(|x| x + 1000)
+}
+
+// ---------------------------------------------------------------------------------------
+// the derived structs (mirrored as FieldSpec lists in lean/JominiModel/Driver/C18.lean)
+
+#[derive(JominiDeserialize, Debug, PartialEq)]
+struct Basic {
+    a: i32,
+    b: Option<i32>,
+    #[jomini(default)]
+    c: i32,
+    #[jomini(default = "d777")]
+    d: i32,
+    #[jomini(duplicated)]
+    e: Vec<i32>,
+    #[jomini(take_last)]
+    f: i32,
+}
+
+#[derive(JominiDeserialize, Debug, PartialEq)]
+struct Aliased {
+    #[jomini(alias = "x")]
+    a: i32,
+    #[jomini(alias = "core", duplicated)]
+    cores: Vec<i32>,
+    #[jomini(alias = "l", take_last)]
+    last: Option<i32>,
+    #[jomini(default = "d777", alias = "dd")]
+    d: Option<i32>,
+    #[jomini(duplicated, take_last)]
+    both: Vec<i32>,
+    #[jomini(default = "d777", take_last)]
+    g: i32,
+}
+
+#[derive(JominiDeserialize, Debug, PartialEq)]
+struct Tok {
+    #[jomini(token = 0x2d00)]
+    a: i32,
+    #[jomini(token = 0x2d04, duplicated)]
+    e: Vec<i32>,
+    #[jomini(token = 0x2d05, take_last)]
+    f: Option<i32>,
+    #[jomini(token = 0x2d01, alias = "bee")]
+    b: i32,
+    #[jomini(token = 0x2d02, default)]
+    c: i32,
+    #[jomini(token = 0x2d0d)]
+    u1: Option<i32>,
+}
+
+#[derive(JominiDeserialize, Debug, PartialEq)]
+struct Inner {
+    u: i32,
+    #[jomini(duplicated)]
+    v: Vec<i32>,
+    #[jomini(take_last)]
+    w: Option<i32>,
+}
+
+#[derive(JominiDeserialize, Debug, PartialEq)]
+struct Nested {
+    inner: Inner,
+    #[jomini(duplicated)]
+    inners: Vec<Inner>,
+    x: Option<i32>,
+    #[jomini(take_last)]
+    last: Option<Inner>,
+}
+
+#[derive(JominiDeserialize, Debug, PartialEq)]
+struct With {
+    #[jomini(deserialize_with = "plus1000")]
+    a: i32,
+    #[jomini(deserialize_with = "plus1000", take_last)]
+    f: i32,
+    #[jomini(duplicated, deserialize_with = "plus1000")]
+    e: Vec<i32>,
+    #[jomini(deserialize_with = "plus1000", default)]
+    c: i32,
+}
+
+trait Show {
+    fn show(&self) -> String;
+}
+fn oi(x: &Option<i32>) -> String {
+    x.map(|v| v.to_string()).unwrap_or("none".into())
+}
+fn vi(x: &[i32]) -> String {
+    format!("[{}]", x.iter().map(|v| v.to_string()).collect::<Vec<_>>().join("."))
+}
+impl Show for Basic {
+    fn show(&self) -> String {
+        format!("a={};b={};c={};d={};e={};f={}", self.a, oi(&self.b), self.c, self.d, vi(&self.e), self.f)
+    }
+}
+impl Show for Aliased {
+    fn show(&self) -> String {
+        format!("a={};cores={};last={};d={};both={};g={}", self.a, vi(&self.cores), oi(&self.last), oi(&self.d), vi(&self.both), self.g)
+    }
+}
+impl Show for Tok {
+    fn show(&self) -> String {
+        format!("a={};e={};f={};b={};c={};u1={}", self.a, vi(&self.e), oi(&self.f), self.b, self.c, oi(&self.u1))
+    }
+}
+impl Show for Inner {
+    fn show(&self) -> String {
+        format!("{{u={};v={};w={}}}", self.u, vi(&self.v), oi(&self.w))
+    }
+}
+impl Show for Nested {
+    fn show(&self) -> String {
+        format!(
+            "inner={};inners=[{}];x={};last={}",
+            self.inner.show(),
+            self.inners.iter().map(|i| i.show()).collect::<Vec<_>>().join("."),
+            oi(&self.x),
+            self.last.as_ref().map(|i| i.show()).unwrap_or("none".into())
+        )
+    }
+}
+impl Show for With {
+    fn show(&self) -> String {
+        format!("a={};f={};e={};c={}", self.a, self.f, vi(&self.e), self.c)
+    }
+}
+
+// ---------------------------------------------------------------------------------------
+// pairs
+
+#[derive(Clone, Debug, PartialEq)]
+enum Val {
+    Int(i32),
+    I64(i64),
+    U32(u32),
+    U64(u64),
+    /// raw little-endian payload of an F32 / F64 token
+    F32([u8; 4]),
+    F64([u8; 8]),
+    /// raw payload byte of a Bool token
+    Bool(u8),
+    /// Quoted / Unquoted string token, raw bytes
+    Q(Vec<u8>),
+    Uq(Vec<u8>),
+    /// rgb block, 3 or 4 channels
+    Rgb(Vec<u32>),
+    Arr(Vec<Val>),
+    Obj(Vec<(String, Val)>),
+}
+#[derive(Clone, Debug, PartialEq)]
+struct Item {
+    as_i32: bool,
+    as_id: bool,
+    key: String,
+    val: Val,
+}
+
+/// split at `sep` outside of brackets
+fn split_top(s: &str, sep: char) -> Vec<&str> {
+    let mut out = vec![];
+    let (mut depth, mut start) = (0i32, 0usize);
+    for (i, c) in s.char_indices() {
+        match c {
+            '[' | '{' => depth += 1,
+            ']' | '}' => depth -= 1,
+            c if c == sep && depth == 0 => {
+                out.push(&s[start..i]);
+                start = i + 1;
+            }
+            _ => {}
+        }
+    }
+    out.push(&s[start..]);
+    out
+}
+
+fn parse_val(s: &str) -> Option<Val> {
+    if let Some(body) = s.strip_prefix('[') {
+        let body = body.strip_suffix(']')?;
+        if body.is_empty() {
+            return Some(Val::Arr(vec![]));
+        }
+        return Some(Val::Arr(split_top(body, '.').into_iter().map(parse_val).collect::<Option<Vec<Val>>>()?));
+    }
+    if let Some(body) = s.strip_prefix('{') {
+        let body = body.strip_suffix('}')?;
+        if body.is_empty() {
+            return Some(Val::Obj(vec![]));
+        }
+        let mut out = vec![];
+        for it in split_top(body, ';') {
+            let (k, v) = it.split_once('=')?;
+            out.push((k.to_string(), parse_val(v)?));
+        }
+        return Some(Val::Obj(out));
+    }
+    if let Some((tag, body)) = s.split_once(':') {
+        return Some(match tag {
+            "i64" => Val::I64(body.parse().ok()?),
+            "u32" => Val::U32(body.parse().ok()?),
+            "u64" => Val::U64(body.parse().ok()?),
+            "f32" => Val::F32(unhex(body)?.try_into().ok()?),
+            "f64" => Val::F64(unhex(body)?.try_into().ok()?),
+            "b" => Val::Bool(body.parse().ok()?),
+            "q" => Val::Q(unhex(body)?),
+            "uq" => Val::Uq(unhex(body)?),
+            "rgb" => {
+                let c = body.split('/').map(|x| x.parse().ok()).collect::<Option<Vec<u32>>>()?;
+                if c.len() != 3 && c.len() != 4 {
+                    return None;
+                }
+                Val::Rgb(c)
+            }
+            _ => return None,
+        });
+    }
+    s.parse().ok().map(Val::Int)
+}
+
+fn parse_pairs(s: &str) -> Option<Vec<Item>> {
+    if s == "-" {
+        return Some(vec![]);
+    }
+    let mut out = vec![];
+    for it in s.split(',') {
+        let (k, v) = it.split_once('=')?;
+        let (as_id, k) = match k.strip_prefix('#') {
+            Some(r) => (true, r),
+            None => (false, k),
+        };
+        let (as_i32, k) = match k.strip_prefix('%') {
+            Some(r) => (true, r),
+            None => (false, k),
+        };
+        if as_i32 && k.parse::<i32>().is_err() {
+            return None;
+        }
+        out.push(Item { as_i32, as_id, key: k.to_string(), val: parse_val(v)? });
+    }
+    Some(out)
+}
+
+fn show_val(v: &Val) -> String {
+    match v {
+        Val::Int(i) => i.to_string(),
+        Val::I64(i) => format!("i64:{}", i),
+        Val::U32(i) => format!("u32:{}", i),
+        Val::U64(i) => format!("u64:{}", i),
+        Val::F32(b) => format!("f32:{}", hex(b)),
+        Val::F64(b) => format!("f64:{}", hex(b)),
+        Val::Bool(b) => format!("b:{}", b),
+        Val::Q(b) => format!("q:{}", hex(b)),
+        Val::Uq(b) => format!("uq:{}", hex(b)),
+        Val::Rgb(c) => format!("rgb:{}", c.iter().map(|x| x.to_string()).collect::<Vec<_>>().join("/")),
+        Val::Arr(a) => format!("[{}]", a.iter().map(show_val).collect::<Vec<_>>().join(".")),
+        Val::Obj(o) => format!("{{{}}}", o.iter().map(|(k, v)| format!("{}={}", k, show_val(v))).collect::<Vec<_>>().join(";")),
+    }
+}
+fn show_pairs(p: &[Item]) -> String {
+    if p.is_empty() {
+        return "-".into();
+    }
+    p.iter().map(|i| format!("{}{}={}", if i.as_id { "#" } else if i.as_i32 { "%" } else { "" }, i.key, show_val(&i.val))).collect::<Vec<_>>().join(",")
+}
+
+/// TEXT rendering.  Numbers in decimal, F32/F64 as a fixed decimal, Bool yes/no, a Quoted string
+/// between quotes with `"` and `\` escaped and control bytes replaced by `_` (so `{ } # =` and
+/// escapes stay inside the string), an Unquoted string as the scalar `x<hex>`, rgb as a header.
+fn text_val(v: &Val, out: &mut Vec<u8>) {
+    match v {
+        Val::Int(i) => out.extend_from_slice(i.to_string().as_bytes()),
+        Val::I64(i) => out.extend_from_slice(i.to_string().as_bytes()),
+        Val::U32(i) => out.extend_from_slice(i.to_string().as_bytes()),
+        Val::U64(i) => out.extend_from_slice(i.to_string().as_bytes()),
+        Val::F32(_) => out.extend_from_slice(b"1.500"),
+        Val::F64(_) => out.extend_from_slice(b"2.25000"),
+        Val::Bool(b) => out.extend_from_slice(if *b != 0 { b"yes" } else { b"no" }),
+        Val::Q(b) => {
+            out.push(b'"');
+            for &c in b {
+                match c {
+                    b'"' | b'\\' => {
+                        out.push(b'\\');
+                        out.push(c);
+                    }
+                    0..=0x1f => out.push(b'_'),
+                    _ => out.push(c),
+                }
+            }
+            out.push(b'"');
+        }
+        Val::Uq(b) => {
+            out.push(b'x');
+            out.extend_from_slice(hex(b).replace('-', "").as_bytes());
+        }
+        Val::Rgb(c) => {
+            out.extend_from_slice(b"rgb { ");
+            for x in c {
+                out.extend_from_slice(x.to_string().as_bytes());
+                out.push(b' ');
+            }
+            out.push(b'}');
+        }
+        Val::Arr(a) => {
+            out.extend_from_slice(b"{ ");
+            for x in a {
+                text_val(x, out);
+                out.push(b' ');
+            }
+            out.push(b'}');
+        }
+        Val::Obj(o) => {
+            out.extend_from_slice(b"{ ");
+            for (k, v) in o {
+                out.extend_from_slice(k.as_bytes());
+                out.push(b'=');
+                text_val(v, out);
+                out.push(b' ');
+            }
+            out.push(b'}');
+        }
+    }
+}
+fn render_text(p: &[Item]) -> Vec<u8> {
+    let mut out = vec![];
+    for it in p {
+        out.extend_from_slice(it.key.as_bytes());
+        out.push(b'=');
+        text_val(&it.val, &mut out);
+        out.push(b'\n');
+    }
+    out
+}
+
+fn w16(out: &mut Vec<u8>, v: u16) {
+    out.extend_from_slice(&v.to_le_bytes());
+}
+fn bin_key_item(it: &Item, out: &mut Vec<u8>) {
+    if it.as_i32 {
+        w16(out, 0x000c);
+        out.extend_from_slice(&it.key.parse::<i32>().unwrap().to_le_bytes());
+    } else {
+        bin_key(&it.key, it.as_id, out);
+    }
+}
+fn bin_key(k: &str, as_id: bool, out: &mut Vec<u8>) {
+    match (as_id, name_id(k)) {
+        (true, Some(id)) => w16(out, id),
+        _ => {
+            w16(out, 0x000f);
+            w16(out, k.len() as u16);
+            out.extend_from_slice(k.as_bytes());
+        }
+    }
+}
+fn bin_val(v: &Val, out: &mut Vec<u8>) {
+    match v {
+        Val::Int(i) => {
+            w16(out, 0x000c);
+            out.extend_from_slice(&i.to_le_bytes());
+        }
+        Val::I64(i) => {
+            w16(out, 0x0317);
+            out.extend_from_slice(&i.to_le_bytes());
+        }
+        Val::U32(i) => {
+            w16(out, 0x0014);
+            out.extend_from_slice(&i.to_le_bytes());
+        }
+        Val::U64(i) => {
+            w16(out, 0x029c);
+            out.extend_from_slice(&i.to_le_bytes());
+        }
+        Val::F32(b) => {
+            w16(out, 0x000d);
+            out.extend_from_slice(b);
+        }
+        Val::F64(b) => {
+            w16(out, 0x0167);
+            out.extend_from_slice(b);
+        }
+        Val::Bool(b) => {
+            w16(out, 0x000e);
+            out.push(*b);
+        }
+        Val::Q(b) | Val::Uq(b) => {
+            w16(out, if matches!(v, Val::Q(_)) { 0x000f } else { 0x0017 });
+            w16(out, b.len() as u16);
+            out.extend_from_slice(b);
+        }
+        Val::Rgb(c) => {
+            w16(out, 0x0243);
+            w16(out, 0x0003);
+            for x in c {
+                w16(out, 0x0014);
+                out.extend_from_slice(&x.to_le_bytes());
+            }
+            w16(out, 0x0004);
+        }
+        Val::Arr(a) => {
+            w16(out, 0x0003);
+            for x in a {
+                bin_val(x, out);
+            }
+            w16(out, 0x0004);
+        }
+        Val::Obj(o) => {
+            w16(out, 0x0003);
+            for (k, v) in o {
+                bin_key(k, false, out);
+                w16(out, 0x0001);
+                bin_val(v, out);
+            }
+            w16(out, 0x0004);
+        }
+    }
+}
+fn render_binary(p: &[Item]) -> Vec<u8> {
+    let mut out = vec![];
+    for it in p {
+        bin_key_item(it, &mut out);
+        w16(&mut out, 0x0001);
+        bin_val(&it.val, &mut out);
+    }
+    out
+}
+
+fn classify(e: &jomini::Error) -> String {
+    let s = e.to_string();
+    let field = |pat: &str| s.find(pat).map(|p| s[p + pat.len()..].split('`').next().unwrap_or("").to_string());
+    if let Some(f) = field("duplicate field `") {
+        format!("err:duplicate:{}", f)
+    } else if let Some(f) = field("missing field `") {
+        format!("err:missing:{}", f)
+    } else if s.contains("invalid type") {
+        "err:invalidtype".to_string()
+    } else {
+        "err:other".to_string()
+    }
+}
+
+fn res<T: Show>(r: Result<T, jomini::Error>) -> String {
+    match r {
+        Ok(v) => v.show(),
+        Err(e) => classify(&e),
+    }
+}
+
+fn run_text<T: Show + serde::de::DeserializeOwned>(text: &[u8], case: &str, obs: &mut Obs) -> String {
+    let mut rs: Vec<(&str, String)> = vec![];
+    rs.push(("windows1252_slice", res(jomini::text::de::from_windows1252_slice::<T>(text))));
+    rs.push(("utf8_slice", res(jomini::text::de::from_utf8_slice::<T>(text))));
+    rs.push((
+        "windows1252_tape",
+        match TextTape::from_slice(text) {
+            Ok(tape) => res(TextDeserializer::from_windows1252_tape(&tape).deserialize::<T>()),
+            Err(_) => "err:other".into(),
+        },
+    ));
+    rs.push(("windows1252_reader", res(jomini::text::de::from_windows1252_reader::<T, _>(text))));
+    rs.push(("utf8_reader", res(jomini::text::de::from_utf8_reader::<T, _>(text))));
+    for (name, n) in [("windows1252_reader/buf32", 32usize), ("windows1252_reader/buf64", 64)] {
+        let reader = jomini::text::TokenReader::builder().buffer_len(n).build(text);
+        rs.push((name, res(TextDeserializer::from_windows1252_reader(reader).deserialize::<T>())));
+    }
+    {
+        let reader = jomini::text::TokenReader::builder().buffer_len(48).build(text);
+        rs.push(("utf8_reader/buf48", res(TextDeserializer::from_utf8_reader(reader).deserialize::<T>())));
+    }
+    for (n, r) in &rs[1..] {
+        if *r != rs[0].1 {
+            obs.violation("text-paths-differ", case, &format!("{} = {} but {} = {}", rs[0].0, rs[0].1, n, r));
+            break;
+        }
+    }
+    rs.remove(0).1
+}
+
+fn run_bin<T: Show + serde::de::DeserializeOwned>(bin: &[u8], case: &str, obs: &mut Obs) -> String {
+    let resolver = resolver();
+    let mut rs: Vec<(&str, String)> = vec![];
+    rs.push(("slice", res(BinaryDeserializer::builder_flavor(Flavor).deserialize_slice::<_, T>(bin, &resolver))));
+    rs.push((
+        "tape",
+        match BinaryTape::from_slice(bin) {
+            Ok(tape) => res(BinaryDeserializer::builder_flavor(Flavor).deserialize_tape::<_, T>(&tape, &resolver)),
+            Err(_) => "err:other".into(),
+        },
+    ));
+    rs.push(("reader", res(BinaryDeserializer::builder_flavor(Flavor).deserialize_reader::<_, T, _>(bin, &resolver))));
+    for (name, n) in [("reader/buf16", 16usize), ("reader/buf24", 24), ("reader/buf64", 64)] {
+        let mut b = BinaryDeserializer::builder_flavor(Flavor);
+        b.reader_config(jomini::binary::TokenReader::builder().buffer_len(n));
+        rs.push((name, res(b.deserialize_reader::<_, T, _>(bin, &resolver))));
+    }
+    for (n, r) in &rs[1..] {
+        if *r != rs[0].1 {
+            obs.violation("binary-paths-differ", case, &format!("{} = {} but {} = {}", rs[0].0, rs[0].1, n, r));
+            break;
+        }
+    }
+    rs.remove(0).1
+}
+
+fn run_schema(id: &str, p: &[Item], case: &str, obs: &mut Obs) -> Option<(String, String)> {
+    let text = render_text(p);
+    let bin = render_binary(p);
+    Some(match id {
+        "basic" => (run_text::<Basic>(&text, case, obs), run_bin::<Basic>(&bin, case, obs)),
+        "aliased" => (run_text::<Aliased>(&text, case, obs), run_bin::<Aliased>(&bin, case, obs)),
+        "tok" => (run_text::<Tok>(&text, case, obs), run_bin::<Tok>(&bin, case, obs)),
+        "nested" => (run_text::<Nested>(&text, case, obs), run_bin::<Nested>(&bin, case, obs)),
+        "with" => (run_text::<With>(&text, case, obs), run_bin::<With>(&bin, case, obs)),
+        _ => return None,
+    })
+}
+
+// ---------------------------------------------------------------------------------------
+// independent reference reading of the property (int-valued schemas only), keyed by the string
+// each field answers to.  (kind: 0 plain, 1 duplicated, 2 take_last; dflt: 0 none, 1 default/Option, 2 path)
+struct RefField {
+    name: &'static str,
+    answers: &'static str,
+    kind: u8,
+    dflt: u8,
+    option: bool,
+    plus: i32,
+}
+fn ref_schema(id: &str) -> Option<Vec<RefField>> {
+    let f = |name, answers, kind, dflt, option, plus| RefField { name, answers, kind, dflt, option, plus };
+    Some(match id {
+        "basic" => vec![f("a", "a", 0, 0, false, 0), f("b", "b", 0, 1, true, 0), f("c", "c", 0, 1, false, 0), f("d", "d", 0, 2, false, 0), f("e", "e", 1, 0, false, 0), f("f", "f", 2, 0, false, 0)],
+        "aliased" => vec![f("a", "x", 0, 0, false, 0), f("cores", "core", 1, 0, false, 0), f("last", "l", 2, 1, true, 0), f("d", "dd", 0, 1, true, 0), f("both", "both", 1, 0, false, 0), f("g", "g", 2, 2, false, 0)],
+        "with" => vec![f("a", "a", 0, 0, false, 1000), f("f", "f", 2, 0, false, 1000), f("e", "e", 1, 0, false, 0), f("c", "c", 0, 1, false, 1000)],
+        _ => return None,
+    })
+}
+/// reference for the TEXT rendering (keys are plain strings)
+fn reference(id: &str, p: &[Item]) -> Option<String> {
+    let sch = ref_schema(id)?;
+    // first plain field seen twice, in document order
+    let mut seen: Vec<usize> = vec![0; sch.len()];
+    for it in p {
+        if let Some(i) = sch.iter().position(|f| f.answers == it.key) {
+            if !matches!(it.val, Val::Int(_)) {
+                return None; // type errors are outside the property
+            }
+            seen[i] += 1;
+            if sch[i].kind == 0 && seen[i] == 2 {
+                return Some(format!("err:duplicate:{}", sch[i].name));
+            }
+        }
+    }
+    let mut out = vec![];
+    for f in &sch {
+        let occ: Vec<i32> = p.iter().filter(|it| it.key == f.answers).filter_map(|it| if let Val::Int(i) = it.val { Some(i + f.plus) } else { None }).collect();
+        let s = match f.kind {
+            1 => vi(&occ),
+            _ => match occ.last() {
+                Some(v) => v.to_string(),
+                None => match f.dflt {
+                    1 => (if f.option { "none" } else { "0" }).to_string(),
+                    2 => "777".to_string(),
+                    _ => return Some(format!("err:missing:{}", f.name)),
+                },
+            },
+        };
+        out.push(format!("{}={}", f.name, s));
+    }
+    Some(out.join(";"))
+}
+
+/// a shuffle that keeps the relative order of the occurrences of every key except that
+/// non-last occurrences of take_last keys may move anywhere before the last one
+fn shuffle_preserving(id: &str, p: &[Item], rng: &mut Rng) -> Vec<Item> {
+    let take_last: &[&str] = match id {
+        "basic" => &["f"],
+        "aliased" => &["l", "g"],
+        "tok" => &["f"],
+        "nested" => &["last"],
+        "with" => &["f"],
+        _ => &[],
+    };
+    // random interleaving of the per-key subsequences
+    let mut keys: Vec<String> = vec![];
+    for it in p {
+        if !keys.contains(&it.key) {
+            keys.push(it.key.clone());
+        }
+    }
+    let mut queues: Vec<Vec<Item>> = keys.iter().map(|k| p.iter().filter(|it| &it.key == k).cloned().collect()).collect();
+    for (k, q) in keys.iter().zip(queues.iter_mut()) {
+        if take_last.contains(&k.as_str()) && q.len() > 2 {
+            // permute all but the last
+            let n = q.len() - 1;
+            for i in (1..n).rev() {
+                let j = rng.below(i + 1);
+                q.swap(i, j);
+            }
+        }
+        q.reverse();
+    }
+    let mut out = vec![];
+    let total = p.len();
+    while out.len() < total {
+        let live: Vec<usize> = (0..queues.len()).filter(|i| !queues[*i].is_empty()).collect();
+        let i = *rng.pick(&live);
+        out.push(queues[i].pop().unwrap());
+    }
+    out
+}
+
+fn line_hash(s: &str) -> u64 {
+    let mut h: u64 = 0xcbf29ce484222325;
+    for b in s.bytes() {
+        h ^= b as u64;
+        h = h.wrapping_mul(0x100000001b3);
+    }
+    h
+}
 
 pub fn exec(w: &[&str], obs: &mut Obs) -> Option<String> {
-    None
+    match w {
+        ["derive", id, pairs] => {
+            let case = w.join(" ");
+            let p = parse_pairs(pairs)?;
+            let (t, b) = run_schema(id, &p, &case, obs)?;
+            obs.count(&format!("{}:T:{}", id, if t.starts_with("err:") { t.split(':').take(2).collect::<Vec<_>>().join(":") } else { "ok".into() }));
+            obs.count(&format!("{}:B:{}", id, if b.starts_with("err:") { b.split(':').take(2).collect::<Vec<_>>().join(":") } else { "ok".into() }));
+            let numeric_key = p.iter().any(|it| it.key.bytes().all(|c| c.is_ascii_digit()));
+            let any_id = p.iter().any(|it| it.as_id || it.as_i32);
+            if !numeric_key && !any_id && t != b {
+                obs.violation("text-binary-differ", &case, &format!("text {} binary {}", t, b));
+            }
+            // reference reading of the property
+            if let Some(r) = reference(id, &p) {
+                if r != t {
+                    obs.violation("reference", &case, &format!("text result {} reference {}", t, r));
+                }
+                if !any_id && r != b {
+                    obs.violation("reference", &case, &format!("binary result {} reference {}", b, r));
+                }
+            }
+            // unknown keys (answered by no field of any schema) must be ignored, whatever their form.
+            // Two shapes are RECORDED known findings and get their own exact oracle kinds: an unknown
+            // key written as an I32 token in binary (`visit_i32`), and an unknown all-digit key of a
+            // token-attribute struct read from TEXT (`deserialize_u16` -> `visit_u64`); the generated
+            // field visitor implements neither.  A divergence is attributed to one of them only if
+            // removing just the keys of that shape already restores the result; anything else is
+            // `unknown-not-ignored`.
+            {
+                let all_digits = |it: &Item| it.key.bytes().all(|c| c.is_ascii_digit());
+                let stripped: Vec<Item> = p.iter().filter(|it| !is_unknown_key(&it.key)).cloned().collect();
+                if stripped.len() != p.len() {
+                    let mut o2 = Obs::default();
+                    if let Some((t2, b2)) = run_schema(id, &stripped, &case, &mut o2) {
+                        if b2 != b {
+                            let q: Vec<Item> = p.iter().filter(|it| !(it.as_i32 && is_unknown_key(&it.key))).cloned().collect();
+                            let explained = q.len() != p.len() && run_schema(id, &q, &case, &mut o2).map(|r| r.1 == b2).unwrap_or(false);
+                            let kind = if explained { "unknown-int-key-binary" } else { "unknown-not-ignored" };
+                            obs.violation(kind, &case, &format!("binary with unknown fields {}, without {}", b, b2));
+                        }
+                        if t2 != t {
+                            let q: Vec<Item> = p.iter().filter(|it| !(all_digits(it) && is_unknown_key(&it.key))).cloned().collect();
+                            let explained = *id == "tok" && q.len() != p.len() && run_schema(id, &q, &case, &mut o2).map(|r| r.0 == t2).unwrap_or(false);
+                            let kind = if explained { "unknown-digit-key-token-struct" } else { "unknown-not-ignored" };
+                            obs.violation(kind, &case, &format!("text with unknown fields {}, without {}", t, t2));
+                        }
+                    }
+                }
+            }
+            // permutation independence
+            let mut rng = Rng(line_hash(&case));
+            let q = shuffle_preserving(id, &p, &mut rng);
+            if q != p {
+                let mut o2 = Obs::default();
+                if let Some((t2, b2)) = run_schema(id, &q, &case, &mut o2) {
+                    let same = |x: &str, y: &str| if x.starts_with("err:") { y.starts_with("err:") } else { x == y };
+                    if !same(&t, &t2) || !same(&b, &b2) {
+                        obs.violation("order-dependent", &case, &format!("T:{} B:{} but shuffled {} gives T:{} B:{}", t, b, show_pairs(&q), t2, b2));
+                    }
+                    obs.count("perm-checked");
+                }
+            }
+            Some(format!("T:{} B:{}", t, b))
+        }
+        _ => None,
+    }
+}
+
+fn is_unknown_key(k: &str) -> bool {
+    matches!(k, "zz" | "yy" | "k1" | "k2" | "u2") || k.bytes().all(|c| c.is_ascii_digit())
+}
+
+// ---------------------------------------------------------------------------------------
+// generators
+
+fn unknown_item(rng: &mut Rng, numeric_ok: bool, n: i32) -> Item {
+    let key = match rng.below(if numeric_ok { 6 } else { 5 }) {
+        0 => "zz".to_string(),
+        1 => "yy".to_string(),
+        2 => "k1".to_string(),
+        3 => "k2".to_string(),
+        4 => "u2".to_string(),
+        _ => format!("{}", 100 + rng.below(50)),
+    };
+    let val = match rng.below(6) {
+        0 | 1 => Val::Int(n),
+        2 => Val::Arr((0..rng.below(4)).map(|i| Val::Int(n + i as i32)).collect()),
+        3 => Val::Obj(vec![("a".into(), Val::Int(n)), ("a".into(), Val::Int(n + 1)), ("e".into(), Val::Arr(vec![Val::Int(1), Val::Int(2)]))]),
+        4 => Val::Obj(vec![]),
+        _ => Val::Obj(vec![("zz".into(), Val::Int(n))]),
+    };
+    let numeric = key.bytes().all(|c| c.is_ascii_digit());
+    Item { as_i32: false, as_id: !numeric && rng.chance(1, 3), key, val }
+}
+
+fn known_val(id: &str, key: &str, rng: &mut Rng, n: i32) -> Val {
+    if id == "nested" && matches!(key, "inner" | "inners" | "last") {
+        // an Inner: u required (sometimes missing / duplicated), v duplicated, w take_last
+        let mut o = vec![];
+        let mut keys: Vec<&str> = vec![];
+        let nu = match rng.below(10) { 0 => 0, 1 => 2, _ => 1 };
+        for _ in 0..nu { keys.push("u"); }
+        for _ in 0..rng.below(4) { keys.push("v"); }
+        for _ in 0..rng.below(3) { keys.push("w"); }
+        if rng.chance(1, 3) { keys.push("zz"); }
+        for i in (1..keys.len()).rev() { let j = rng.below(i + 1); keys.swap(i, j); }
+        for (i, k) in keys.iter().enumerate() { o.push((k.to_string(), Val::Int(n * 10 + i as i32))); }
+        Val::Obj(o)
+    } else {
+        Val::Int(n)
+    }
+}
+
+fn schema_keys(id: &str) -> &'static [&'static str] {
+    match id {
+        "basic" => &["a", "b", "c", "d", "e", "f"],
+        // the un-aliased names "a", "cores", "last", "d" must no longer match
+        "aliased" => &["x", "core", "l", "dd", "both", "g", "a", "cores", "last", "d"],
+        // "b" is aliased to "bee": by name only "bee" matches, by token id(b)
+        "tok" => &["a", "e", "f", "bee", "c", "u1", "b"],
+        "nested" => &["inner", "inners", "x", "last"],
+        "with" => &["a", "f", "e", "c"],
+        _ => &[],
+    }
+}
+
+fn emit(g: &mut Gen, id: &str, p: &[Item]) {
+    g.emit(format!("derive {} {}", id, show_pairs(p)));
+}
+
+pub fn gen(g: &mut Gen) {
+    // 1. exhaustive: every key sequence of length <= L over the six fields of `basic`
+    {
+        let keys = schema_keys("basic");
+        let maxlen = g.budget(4, 5);
+        let mut cur: Vec<usize> = vec![];
+        fn rec(g: &mut Gen, keys: &[&str], cur: &mut Vec<usize>, maxlen: usize) {
+            let p: Vec<Item> = cur.iter().enumerate().map(|(i, k)| Item { as_i32: false, as_id: false, key: keys[*k].to_string(), val: Val::Int(i as i32 + 1) }).collect();
+            emit(g, "basic", &p);
+            if cur.len() == maxlen { return; }
+            for k in 0..keys.len() {
+                cur.push(k);
+                rec(g, keys, cur, maxlen);
+                cur.pop();
+            }
+        }
+        rec(g, keys, &mut cur, maxlen);
+        g.count("exhaustive-basic");
+    }
+    // 2. every multiplicity vector in 0..=3 for the six fields of `basic`, random orders, unknown fields interleaved
+    {
+        let keys = schema_keys("basic");
+        let orders = g.budget(3, 12);
+        for code in 0..4096usize {
+            let mult: Vec<usize> = (0..6).map(|i| (code >> (2 * i)) & 3).collect();
+            for o in 0..orders {
+                let mut p: Vec<Item> = vec![];
+                let mut n = 1;
+                for (k, m) in keys.iter().zip(&mult) {
+                    for _ in 0..*m {
+                        p.push(Item { as_i32: false, as_id: g.rng.chance(1, 3), key: k.to_string(), val: Val::Int(n) });
+                        n += 1;
+                    }
+                }
+                for i in (1..p.len()).rev() { let j = g.rng.below(i + 1); p.swap(i, j); }
+                if o > 0 {
+                    let nu = g.rng.below(4);
+                    for _ in 0..nu {
+                        let pos = g.rng.below(p.len() + 1);
+                        let it = unknown_item(&mut g.rng, true, 900 + n);
+                        n += 1;
+                        p.insert(pos, it);
+                    }
+                }
+                emit(g, "basic", &p);
+            }
+        }
+        g.count("multiplicities-basic");
+    }
+    // 2b. plain fields at most once, e / f 0..=3 times: mostly successful deserializations
+    {
+        let orders = g.budget(8, 40);
+        for code in 0..256usize {
+            let mult = [code & 1, (code >> 1) & 1, (code >> 2) & 1, (code >> 3) & 1, (code >> 4) & 3, (code >> 6) & 3];
+            for _ in 0..orders {
+                let mut p: Vec<Item> = vec![];
+                let mut n = 1;
+                for (k, m) in schema_keys("basic").iter().zip(&mult) {
+                    for _ in 0..*m {
+                        p.push(Item { as_i32: false, as_id: g.rng.chance(1, 3), key: k.to_string(), val: Val::Int(n) });
+                        n += 1;
+                    }
+                }
+                for i in (1..p.len()).rev() { let j = g.rng.below(i + 1); p.swap(i, j); }
+                let nu = g.rng.below(3);
+                for _ in 0..nu {
+                    let pos = g.rng.below(p.len() + 1);
+                    let it = unknown_item(&mut g.rng, true, 900 + n);
+                    n += 1;
+                    p.insert(pos, it);
+                }
+                emit(g, "basic", &p);
+            }
+        }
+        g.count("plain-once-basic");
+    }
+    // 3. the other schemas: random multiplicities 0..=3 per key, random order, unknown fields
+    for id in ["aliased", "tok", "nested", "with"] {
+        let keys = schema_keys(id);
+        let n_cases = g.budget(6_000, 60_000);
+        for _ in 0..n_cases {
+            let mut p: Vec<Item> = vec![];
+            let mut n = 1;
+            for k in keys {
+                // mostly 1, sometimes 0, 2, 3
+                let m = match g.rng.below(10) { 0 | 1 => 0, 2 => 2, 3 => 3, _ => 1 };
+                let m = if g.rng.chance(1, 4) { g.rng.below(4) } else { m };
+                for _ in 0..m {
+                    let val = known_val(id, k, &mut g.rng, n);
+                    p.push(Item { as_i32: false, as_id: g.rng.chance(1, 2), key: k.to_string(), val });
+                    n += 1;
+                }
+            }
+            for i in (1..p.len()).rev() { let j = g.rng.below(i + 1); p.swap(i, j); }
+            let nu = g.rng.below(4);
+            for _ in 0..nu {
+                let pos = g.rng.below(p.len() + 1);
+                // numeric keys reach a token struct's visitor through visit_u64 in TEXT: kept out of `tok`
+                // except in the dedicated probe below
+                let it = unknown_item(&mut g.rng, id != "tok", 900 + n);
+                n += 1;
+                p.insert(pos, it);
+            }
+            emit(g, id, &p);
+        }
+        g.count(&format!("random-{}", id));
+    }
+    // 3b. the two recorded known-finding shapes, a few dozen cases (kinds `unknown-int-key-binary`,
+    // `unknown-digit-key-token-struct`): an unknown numeric key as an I32 token in binary for every
+    // schema, and an unknown all-digit key in a token struct
+    for (k, id) in ["basic", "aliased", "tok", "nested", "with"].iter().enumerate() {
+        for j in 0..6 {
+            let keys = schema_keys(id);
+            let mut p: Vec<Item> = vec![];
+            for (n, key) in keys.iter().take(4).enumerate() {
+                let val = known_val(id, key, &mut g.rng, n as i32 + 1);
+                p.push(Item { as_i32: false, as_id: false, key: key.to_string(), val });
+            }
+            let pos = g.rng.below(p.len() + 1);
+            p.insert(pos, Item { as_i32: true, as_id: false, key: format!("{}", 100 + 10 * k + j), val: if j % 2 == 0 { Val::Int(7) } else { Val::Obj(vec![("a".into(), Val::Int(1))]) } });
+            emit(g, id, &p);
+        }
+    }
+    for j in 0..24 {
+        let mut p: Vec<Item> = vec![];
+        for (n, key) in ["a", "e", "f", "bee", "c"].iter().enumerate() {
+            if g.rng.chance(4, 5) {
+                p.push(Item { as_i32: false, as_id: g.rng.chance(1, 2) && *key != "bee", key: key.to_string(), val: Val::Int(n as i32 + 1) });
+            }
+        }
+        let pos = g.rng.below(p.len() + 1);
+        p.insert(pos, Item { as_i32: false, as_id: false, key: format!("{}", 200 + j), val: Val::Int(9) });
+        emit(g, "tok", &p);
+    }
+    g.count("known-finding-shapes");
+    // 3c. unknown fields whose values are nested containers full of payloads that look like
+    // structural lexemes (binary) / of strings full of structural characters (text), before,
+    // between and after the known fields: skipping them must leave the known fields intact
+    {
+        let n_random = g.budget(2_500, 40_000);
+        let payloads = adversarial_scalars();
+        let mut count = 0usize;
+        for (pi, pv) in payloads.iter().enumerate() {
+            for shape in 0..4 {
+                let val = match shape {
+                    0 => Val::Obj(vec![("k1".into(), pv.clone())]),
+                    1 => Val::Arr(vec![pv.clone(), pv.clone()]),
+                    2 => Val::Arr(vec![Val::Obj(vec![("a".into(), pv.clone())]), Val::Obj(vec![("zz".into(), Val::Arr(vec![pv.clone()]))])]),
+                    _ => Val::Obj(vec![("a".into(), Val::Obj(vec![("e".into(), Val::Arr(vec![pv.clone(), Val::Int(1)])), ("b".into(), pv.clone())])), ("f".into(), Val::Int(3))]),
+                };
+                let id = ["basic", "aliased", "tok", "nested", "with"][(pi + shape) % 5];
+                let pos = (pi + shape) % 3; // before / between / after
+                emit_with_unknown(g, id, &[(pos, val)]);
+                count += 1;
+            }
+        }
+        for _ in 0..n_random {
+            let id = *g.rng.pick(&["basic", "aliased", "tok", "nested", "with"]);
+            let k = 1 + g.rng.below(3);
+            let ins: Vec<(usize, Val)> = (0..k).map(|_| (g.rng.below(3), adversarial_container(&mut g.rng, &payloads, 0))).collect();
+            emit_with_unknown(g, id, &ins);
+            count += 1;
+        }
+        g.count(&format!("adversarial-unknown-values:{}", count));
+    }
+    // 4. probes
+    for s in [
+        "derive tok a=1,bee=2,123=5",
+        "derive basic a=1,f=2,%123=5",
+        "derive basic a=1,f=2,123=5",
+        "derive tok #a=1,#b=2,#u1=3,#u2=4",
+        "derive tok a=1,b=2",
+        "derive tok #a=1,#bee=2",
+        "derive aliased a=1,x=2",
+        "derive aliased x=1,dd=5,d=6",
+        "derive basic a=1,a=2,f=1,f=2",
+        "derive basic f=1,f=2,e=3,e=4",
+        "derive basic -",
+        "derive with a=1,f=2,f=3,e=4,e=5",
+        "derive nested inner={u=1;v=2;v=3},inners={u=4},inners={u=5;w=6;w=7},last={u=8},last={u=9}",
+        "derive nested inner={v=2}",
+        "derive nested inner={u=1;u=2}",
+    ] {
+        g.emit(s.to_string());
+    }
+}
+
+/// 16-bit limbs that are structural / type lexemes of the binary format
+const LIMBS: [u16; 11] = [0x0001, 0x0003, 0x0004, 0x000c, 0x000e, 0x000f, 0x0014, 0x0017, 0x0243, 0x0317, 0x029c];
+
+/// every payload-carrying token kind with every limb at every limb position, plus strings that
+/// contain `03 00` / `04 00` (and whose length field is itself a lexeme id) and, for text,
+/// strings full of `{ } " \ # =`
+fn adversarial_scalars() -> Vec<Val> {
+    let mut out = vec![];
+    for &l in &LIMBS {
+        for pos in 0..4 {
+            let v = (l as u64) << (16 * pos);
+            out.push(Val::I64(v as i64));
+            out.push(Val::U64(v));
+            out.push(Val::F64(v.to_le_bytes()));
+        }
+        for pos in 0..2 {
+            let v = (l as u32) << (16 * pos);
+            out.push(Val::Int(v as i32));
+            out.push(Val::U32(v));
+            out.push(Val::F32(v.to_le_bytes()));
+        }
+        out.push(Val::Rgb(vec![l as u32, (l as u32) << 16, 7]));
+        // all four limbs structural
+        let all = (l as u64) * 0x0001_0001_0001_0001;
+        out.push(Val::I64(all as i64));
+        out.push(Val::U64(all ^ 0x0004_0003_0004_0003));
+    }
+    out.push(Val::I64(0x0003_0004));
+    out.push(Val::I64(0x0004_0004_0004_0004));
+    out.push(Val::I64(-1));
+    out.push(Val::I64(5_000_000_000));
+    out.push(Val::Rgb(vec![3, 4, 0x0004_0003, 0x0003_0004]));
+    for b in [0u8, 1, 3, 4] {
+        out.push(Val::Bool(b));
+    }
+    let strs: [&[u8]; 10] = [
+        b"\x03\x00", b"\x04\x00", b"\x03\x00\x04\x00", b"a\x04\x00\x04\x00b", b"\x00\x03\x00", b"abc", b"abcd",
+        b"{}\"\\#=", b"} = { # \"x\\", b"twelve chars",
+    ];
+    for st in strs {
+        out.push(Val::Q(st.to_vec()));
+        out.push(Val::Uq(st.to_vec()));
+    }
+    out
+}
+
+fn adversarial_container(rng: &mut Rng, payloads: &[Val], depth: usize) -> Val {
+    let n = 1 + rng.below(4);
+    let leaf = |rng: &mut Rng| rng.pick(payloads).clone();
+    if rng.chance(1, 2) {
+        Val::Arr((0..n).map(|_| if depth < 2 && rng.chance(1, 3) { adversarial_container(rng, payloads, depth + 1) } else { leaf(rng) }).collect())
+    } else {
+        Val::Obj(
+            (0..n)
+                .map(|_| {
+                    let k = rng.pick(&["a", "e", "f", "zz", "k1", "inner", "x"]).to_string();
+                    (k, if depth < 2 && rng.chance(1, 3) { adversarial_container(rng, payloads, depth + 1) } else { leaf(rng) })
+                })
+                .collect(),
+        )
+    }
+}
+
+/// a successful document for `id` (every required field once, duplicated / take_last fields
+/// several times) with unknown fields inserted before (0), between (1) or after (2) the known ones
+fn emit_with_unknown(g: &mut Gen, id: &str, ins: &[(usize, Val)]) {
+    let keys: &[&str] = match id {
+        "basic" => &["a", "e", "f", "b", "e", "f"],
+        "aliased" => &["x", "core", "l", "core", "g"],
+        "tok" => &["a", "e", "bee", "f", "e"],
+        "nested" => &["inner", "inners", "x", "inners"],
+        _ => &["a", "f", "e", "e", "f"],
+    };
+    let mut p: Vec<Item> = vec![];
+    for (n, k) in keys.iter().enumerate() {
+        let val = if id == "nested" && *k != "x" {
+            Val::Obj(vec![("u".into(), Val::Int(n as i32 + 1)), ("v".into(), Val::Int(20 + n as i32))])
+        } else {
+            Val::Int(n as i32 + 1)
+        };
+        p.push(Item { as_i32: false, as_id: g.rng.chance(1, 3) && *k != "bee", key: k.to_string(), val });
+    }
+    let known = p.len();
+    for (j, (pos, v)) in ins.iter().enumerate() {
+        let at = match pos {
+            0 => 0,
+            1 => 1 + g.rng.below(known - 1) + j.min(1) * 0,
+            _ => p.len(),
+        };
+        let key = *g.rng.pick(&["zz", "yy", "k1", "k2", "u2"]);
+        p.insert(at.min(p.len()), Item { as_i32: false, as_id: g.rng.chance(1, 3), key: key.to_string(), val: v.clone() });
+    }
+    emit(g, id, &p);
 }
 
 pub fn tables() -> String {
